@@ -14,7 +14,8 @@ BASE = [
 ]
 
 WRITE_DECL = re.compile(r"^std::io::Write::(write|write_all|write_fmt|write_vectored|flush|write_all_vectored)$"
-                        r"|^<&?std::fs::File as std::io::Write>::")
+                        r"|^<&?std::fs::File as std::io::Write>::"
+                        r"|^<std::io::(BufWriter|LineWriter)<W> as std::io::Write>::(write|write_all|write_fmt|write_vectored)$")
 
 
 def direct_effects(t):
